@@ -5,6 +5,7 @@ CONSTANTS
   Stems = {"def"}
   SupTpls = {FALSE, TRUE}
   NsVals = {FALSE}
+  Shapes = {"plain"}
   Wipes = FALSE
   PFiles = {}
   MaxLo = 1
@@ -15,6 +16,7 @@ CONSTANTS
   QuickOnly = FALSE
   FwdOmitToList = TRUE
   ListDeps = TRUE
+  OwnByPrefix = FALSE
   ListUserSup = TRUE
 INVARIANT NeverPopulatedPassive
 CHECK_DEADLOCK FALSE
